@@ -91,6 +91,7 @@ package lfs
 //@   ensures err_cleanptr(err) && len(old(rrest(reader))) > 0 ==> decodes_ok(str_trim(old(rrest(reader))))
 //@   ensures err == nil ==> tmp != nil && fdata(fpath(tmp)) == old(rrest(reader)) && oid == hexsha(old(rrest(reader))) && size == len(old(rrest(reader)))
 //@   ensures err == nil ==> !isobj(fpath(tmp))
+//@   ensures forall_v(q, isobj(q), isobj(q) ==> fexists(q) == old(fexists(q)) && fdata(q) == old(fdata(q)))
 
 //@ func TempFile
 //@   props C01 C04 C08 C09
@@ -109,6 +110,7 @@ package lfs
 //@   ensures ext_count(old(f.cfg)) == 0 && err_cleanptr(result1) ==> err_ctxbytes(result1) == old(rrest(reader)) && len(old(rrest(reader))) < 1024
 //@   ensures ext_count(old(f.cfg)) == 0 && result1 == nil ==> result0 != nil && result0.Pointer != nil && result0.Oid == hexsha(old(rrest(reader))) && result0.Size == len(old(rrest(reader))) && fdata(result0.Filename) == old(rrest(reader))
 //@   ensures ext_count(old(f.cfg)) == 0 && result1 == nil ==> !isobj(result0.Filename)
+//@   ensures ext_count(old(f.cfg)) == 0 ==> forall_v(q, isobj(q), isobj(q) ==> fexists(q) == old(fexists(q)) && fdata(q) == old(fdata(q)))
 
 //@ func (*github.com/git-lfs/git-lfs/v3/config.Configuration).SortedExtensions
 //@   assumed
